@@ -107,7 +107,7 @@ func cleanConcrete(s string) string {
 
 func (it *Interp) fsLog(kind string, mut bool, p, p2 *StrV, off *Term, data []*Term) {
 	fs := it.fs
-	e := FSEffect{Kind: kind, Path: p, Path2: p2, Off: off, Data: data, Site: it.curSite, Seq: len(fs.log), Mut: mut}
+	e := FSEffect{Kind: kind, Path: p, Path2: p2, Off: off, Data: data, Site: it.site(), Seq: len(fs.log), Mut: mut}
 	fs.log = append(fs.log, e)
 	if it.job.OnFSEffect != nil {
 		it.job.OnFSEffect(it, e)
@@ -129,7 +129,7 @@ func (it *Interp) fsFind(p *StrV) *FSNode {
 		if n.removed {
 			continue
 		}
-		if it.branch(it.strEq(n.path, p), "fspath@"+it.curSite) {
+		if it.branch(it.strEq(n.path, p), "fspath@"+it.site()) {
 			return n
 		}
 	}
